@@ -160,7 +160,12 @@ def entry_points(prog, rep):
             try:
                 outs = m.run(m.start(key, [selfv, ip.Sym("x", aty)]))
             except ip.AnalysisError as e:
-                rep.analysis_error("entry-point", key, e, b.where())
+                n += 1
+                if "unmodelled call" in str(e):
+                    what = str(e).split("unmodelled call to ", 1)[1].split(" ", 1)[0]
+                    rep.ob("entry-point", "%s::%s" % (cls.split("::")[-1], meth), False, "must be exactly one call of get_derived_property_value whose result is returned; it also calls %s (a shortcut in front of the decision list is a second definition of the derived property)" % what, b.where())
+                else:
+                    rep.analysis_error("entry-point", key, e, b.where())
                 continue
             n += 1
             okk = len(outs) == 1 and outs[0].kind == "return" and isinstance(outs[0].value, ip.Sym) and outs[0].value.name == ("dpv-result",) and len(seen) == 1
